@@ -140,7 +140,15 @@ def report(ctx, binp, events, rejects):
             cand.append((line, sig))
     if not cand:
         return
-    cand = cand[:60]
+    # a broken build rejects thousands of events: confirm and report the smallest few per violated rule
+    ctx.cov['rejected_not_known'] = len(cand)
+    cand.sort(key=lambda x: (len(events[x[0] - 1]['wire']), x[0]))
+    per, keep = collections.Counter(), []
+    for line, sig in cand:
+        if per[sig] < 3 and len(keep) < 12:
+            per[sig] += 1
+            keep.append((line, sig))
+    cand = keep
     again_in = os.path.join(ctx.build, 'confirm_in.ndjson')
     again_out = os.path.join(ctx.build, 'confirm_out.ndjson')
     vlib.write_ndjson(again_in, [events[l - 1] for l, _ in cand])
@@ -153,7 +161,8 @@ def report(ctx, binp, events, rejects):
             continue
         e = ev2[i]
         sig2 = rej2[i + 1]
-        full = sig2 if sig2 in KNOWN_SIGS else '%s:%s' % (sig2, '+'.join(sorted(features(e) - {'hs'})) or 'plain')
+        shape = sorted(features(e) & {'nohs', 'frag', 'omit', 'swap', 'dup/overlap', 'fin'})
+        full = sig2 if sig2 in KNOWN_SIGS else '%s:%s' % (sig2, '+'.join(shape) or 'plain')
         ctx.finding(full, describe(e), slim(e))
 
 
@@ -192,15 +201,17 @@ def run(ctx):
 
     # ------------------------------------------------------------------ 1. MC
     if thorough:
-        runs = [dict(conn=1, tok=4, pkts=5), dict(conn=2, tok=2, pkts=6, fin=1), dict(conn=1, tok=2, pkts=7)]
+        runs = [dict(conn=1, tok=2, pkts=5), dict(conn=1, tok=4, pkts=5), dict(conn=2, tok=2, pkts=6, fin=1), dict(conn=1, tok=2, pkts=7),
+                dict(conn=2, tok=3, pkts=7, dup=0, swap=0, omit=0, frag=0, fin=0)]
     else:
-        runs = [dict(conn=1, tok=3, pkts=5)]
+        runs = [dict(conn=1, tok=2, pkts=5), dict(conn=1, tok=3, pkts=4), dict(conn=2, tok=2, pkts=4, fin=1)]
+    acts = {}
     for i, kw in enumerate(runs):
-        r = tlc_retry(ctx, 'mc', 'TcpReasmMC', 'mc_%d.cfg' % i, cfg_text=mc_cfg(['Agree', 'TypeOK', 'FsmRefinesOrKnown'], **kw), timeout=1200)
+        cov = (i == 0)      # -coverage on the first (small) run: every action of the model must fire (anti-vacuity)
+        r = tlc_retry(ctx, 'mc', 'TcpReasmMC', 'mc_%d.cfg' % i, cfg_text=mc_cfg(['Agree', 'TypeOK', 'FsmRefinesOrKnown'], **kw), timeout=1500, coverage=cov)
         ctx.tlc_expect_ok(r, 'history expectation = abstract receiver; FSM veto matters only behind a FIN (%s)' % kw)
-    r = tlc_retry(ctx, 'cov', 'TcpReasmMC', 'mc_cov.cfg', cfg_text=mc_cfg(['Agree'], 1, 2, 4), coverage=True, count=False, timeout=600)
-    ctx.tlc_expect_ok(r, 'coverage run')
-    acts = getattr(r, 'actions', {})
+        if cov:
+            acts = getattr(r, 'actions', {})
     dead = [a for a in ('Open', 'DoHandshake', 'DoSegment', 'DoRetransmit', 'DoFin', 'DoFinAck', 'SwapAdjacent') if acts.get(a, (0, 0))[0] == 0]
     if dead:
         raise Inconclusive('vacuous model: actions never fired: %s' % dead)
@@ -209,15 +220,18 @@ def run(ctx):
     ctx.cov['as_built_fsm_counterexample'] = (r.violated == 'FsmNeverMatters')
 
     # ------------------------------------------------------------------ 2. GEN (exhaustive, small) and SIM (full constants)
-    gkw = dict(conn=1, tok=3, pkts=5) if thorough else dict(conn=1, tok=2, pkts=4)
-    g = tlc_retry(ctx, 'gen', 'TcpReasmMC', 'gen.cfg', cfg_text=mc_cfg(['Agree'], emit=True, **gkw), timeout=1500)
-    ctx.tlc_expect_ok(g, 'GEN')
-    gen_cases = dedupe(g.printed)
-    g.printed = []
+    gkws = [dict(conn=1, tok=3, pkts=4), dict(conn=1, tok=2, pkts=5)] if thorough else [dict(conn=1, tok=2, pkts=4)]
+    gen_cases = []
+    for k, gkw in enumerate(gkws):
+        g = tlc_retry(ctx, 'gen', 'TcpReasmMC', 'gen_%d.cfg' % k, cfg_text=mc_cfg(['Agree'], emit=True, **gkw), timeout=1500)
+        ctx.tlc_expect_ok(g, 'GEN')
+        gen_cases += g.printed
+        g.printed = []
+    gen_cases = dedupe(gen_cases)
     if len(gen_cases) < 1000:
         raise Inconclusive('GEN produced too few histories (%d)' % len(gen_cases))
     sims = []
-    for k, (isn, num) in enumerate([('{"low", "half"}', 250 if not thorough else 1500), ('{"low", "wrap", "half"}', 60 if not thorough else 300)]):
+    for k, (isn, num) in enumerate([('{"low", "half"}', 160 if not thorough else 1500), ('{"low", "wrap", "half"}', 40 if not thorough else 300)]):
         s = tlc_retry(ctx, 'sim', 'TcpReasmMC', 'sim_%d.cfg' % k, simulate='num=%d' % num, depth=18, timeout=1500, seed=ctx.seed * 10 + k,
                     cfg_text=mc_cfg(['Agree'], 2, 4, 8, isn=isn, minemit=5, emit=True))
         ctx.tlc_expect_ok(s, 'SIM')
@@ -226,11 +240,11 @@ def run(ctx):
     sim_cases = dedupe(sims)
     if len(sim_cases) < 500:
         raise Inconclusive('SIM produced too few histories (%d)' % len(sim_cases))
-    cap = 60000 if thorough else 12000
+    cap = 30000 if thorough else 6000
     if len(sim_cases) > cap:
         ctx.rng.shuffle(sim_cases)
         sim_cases = sim_cases[:cap]
-    ctx.cov['gen_exhaustive'] = dict(constants=gkw, histories=len(gen_cases))
+    ctx.cov['gen_exhaustive'] = dict(constants=gkws, histories=len(gen_cases))
     ctx.cov['sim_histories'] = len(sim_cases)
 
     # ------------------------------------------------------------------ 3. replay on real fq
@@ -241,7 +255,7 @@ def run(ctx):
     ge, se, re_ = (os.path.join(ctx.build, n) for n in ('gen_events.ndjson', 'sim_events.ndjson', 'rand_events.ndjson'))
     ctx.run([binp, 'replay', gp, ge, '1'], check=True, timeout=1500)
     ctx.run([binp, 'replay', sp, se, '2'], check=True, timeout=1500)
-    nrand, nbig = (12000, 150) if thorough else (1200, 6)
+    nrand, nbig = (12000, 150) if thorough else (800, 4)
     ctx.run([binp, 'rand', str(nrand), re_, str(nbig)], check=True, timeout=1500)
     gen_ev, sim_ev, rand_ev = vlib.read_ndjson(ge), vlib.read_ndjson(se), vlib.read_ndjson(re_)
     if len(gen_ev) != len(gen_cases) or len(sim_ev) != 2 * len(sim_cases) or len(rand_ev) != nrand:
@@ -300,13 +314,13 @@ def run(ctx):
             if pred(events[i]):
                 return copy.deepcopy(events[i])
         raise Inconclusive('no event available for the binding demo')
-    hasdata = lambda e: any(len(c['cl']['toks']) >= 2 for c in e['obs']['conns']) and not any(c['cl']['skipped'] or c['sv']['skipped'] for c in e['obs']['conns'])
+    hasdata = lambda e: e['obs']['conns'] and len(e['obs']['conns'][0]['cl']['toks']) >= 2 and not any(c['cl']['skipped'] or c['sv']['skipped'] for c in e['obs']['conns'])
     b1 = pick(hasdata); b1['obs']['conns'][0]['cl']['toks'].pop()                        # stream one token short
     nofin = lambda e: hasdata(e) and not any(p['kind'] == 'fin' for p in e['wire'])
     b2 = pick(nofin); b2['obs']['conns'][0]['cl']['skipped'] = 7                       # loss signalled although nothing is missing
     b3 = pick(hasdata); c0 = b3['obs']['conns'][0]; c0['cl']['side'], c0['sv']['side'] = c0['sv']['side'], c0['cl']['side']   # endpoints swapped
     b4 = pick(lambda e: e['obs']['reasm'] and not e['coinc']); b4['obs']['reasm'] = []   # reassembled datagram not listed
-    b5 = pick(lambda e: any(c['cl']['skipped'] > 0 and c['cl']['side'] in (1, 2) for c in e['obs']['conns']))
+    b5 = pick(lambda e: any(c['cl']['skipped'] > 0 for c in e['obs']['conns']))
     for c in b5['obs']['conns']:
         c['cl']['skipped'] = 0                                                           # hole not signalled
     b6 = pick(hasdata); b6['obs']['conns'].append(copy.deepcopy(b6['obs']['conns'][0]))  # a connection reported twice
